@@ -70,6 +70,12 @@ pub struct Scenario {
     /// the pre-filled target is not valid UTF-8 (a stale file in another encoding)
     #[serde(default)]
     pub binary_sentinel: bool,
+    /// every source (and the base) was last modified an hour ago; an existing target is newer
+    #[serde(default)]
+    pub old_sources: bool,
+    /// the second folder's program is erroneous too (only the first program's documents are judged)
+    #[serde(default)]
+    pub folder_b_broken: bool,
 }
 
 fn sentinel_bytes(scn: &Scenario) -> Vec<u8> {
@@ -183,6 +189,17 @@ fn execute_inner(c: &Cfg, world: &World, scn: &Scenario, planted: Option<&[u8]>)
             std::fs::write(root.join(format!("{path}.alt")), alt).expect("scratch");
         }
         _ => {}
+    }
+    if scn.old_sources {
+        let past = std::time::SystemTime::now() - std::time::Duration::from_secs(3600);
+        let mut names: Vec<String> = scn.files.keys().cloned().collect();
+        names.push("base.yaml".into());
+        names.push("oal.toml".into());
+        for p in names {
+            if let Ok(f) = std::fs::File::options().write(true).open(root.join(&p)) {
+                let _ = f.set_modified(past);
+            }
+        }
     }
     if let Some(content) = planted {
         std::fs::write(&tpath, content).expect("scratch");
@@ -785,6 +802,7 @@ pub fn run(seed: u64, run: u64) -> Report {
         examples_bias: 3,
         shadow_bias: 3,
         res_range: (1, 3),
+        odd_spellings: wl.chance(1, 3),
     };
     let ast = gen::generate(&mut wl, &gcfg);
     let layout = Layout {
@@ -855,7 +873,17 @@ pub fn run(seed: u64, run: u64) -> Report {
         verbosity,
         long_sentinel: wl.chance(1, 2),
         binary_sentinel: wl.chance(1, 4),
+        old_sources: wl.chance(1, 3),
+        folder_b_broken: folder_b && sr.chance(1, 2),
     };
+    if scn.folder_b_broken {
+        // any error will do: the other folder's program is not the one being compiled
+        scn.files.insert("fb/main.oal".into(), "let item = { 'id num ;\nres /b on get -> <item>;\n".into());
+        probes.push("second_folder_erroneous".into());
+    }
+    if scn.old_sources {
+        probes.push("sources_older_than_target".into());
+    }
     probes.push(["config_options", "config_file", "options_override_file"][scn.config_mode as usize].to_string());
     if scn.with_base {
         probes.push("with_base".into());
